@@ -228,12 +228,30 @@ def install_rater_memo(memo):
                   **kw):
         PLAN.hit("get_rater")
         if kw:
-            return counting.__wrapped__(regressor, training_set, names, lda,
-                                        **kw)
-        return memo.get(regressor, training_set, names, lda)
+            r = counting.__wrapped__(regressor, training_set, names, lda,
+                                     **kw)
+        else:
+            r = memo.get(regressor, training_set, names, lda)
+        PLAN.hit("get_rater", "after")
+        return r
 
     get_rater.__wrapped__ = counting.__wrapped__
     nanite.indent.get_rater = get_rater
+
+    # the rating itself (features + prediction): counted only while a
+    # rate_quality call of the harness is in progress
+    import nanite.rate.rater as nrr
+    real_rate = nrr.IndentationRater.rate
+
+    def rate(self, *a, **k):
+        if PLAN.phase == "rate":
+            PLAN.hit("rater_rate")
+        r = real_rate(self, *a, **k)
+        if PLAN.phase == "rate":
+            PLAN.hit("rater_rate", "after")
+        return r
+
+    nrr.IndentationRater.rate = rate
     _installed["rater_memo"] = True
 
 
